@@ -633,6 +633,21 @@ func (e *Env) callExpr(n *ast.CallExpr) (Val, types.Type) {
 			panic("as: unknown type " + exprString(n.Args[1]))
 		}
 		return e.x.unbox(e.loadState(), v.(*IfaceV), t), t
+	case "allocated":
+		// allocated(x): x was allocated before the state in which this is evaluated
+		v, _ := e.eval(n.Args[0])
+		var r *T
+		switch xx := v.(type) {
+		case *PtrV:
+			r = e.x.ptrRef(xx)
+		case *IfaceV:
+			r = xx.Ref
+		case *SliceV:
+			r = xx.Base
+		case *T:
+			r = xx
+		}
+		return Lt(r, e.st.alloc), boolT
 	case "asptr":
 		// asptr(x, *T): the reference x viewed as a pointer of that type
 		v, _ := e.eval(n.Args[0])
